@@ -23,10 +23,12 @@ import (
 	"fmt"
 	"io"
 	"os"
+	"runtime/pprof"
 	"sort"
 	"strconv"
 	"strings"
 	"sync"
+	"time"
 
 	"github.com/containerd/containerd/v2/core/content"
 	"github.com/containerd/containerd/v2/core/images"
@@ -272,6 +274,8 @@ type LayerObs struct {
 	SrcDigest string
 	SrcLabel  string // containerd.io/uncompressed of the source blob before conversion ("" = none)
 	SrcDiffID string // sha256 of the decompressed source
+	SrcLen    int64
+	SrcPayLen int64
 	Res       string // ok | nil | err | panic
 	Err       string
 	// observed on the implementation
@@ -379,7 +383,7 @@ func tocJSONOfTOCBlob(b []byte) (string, bool) {
 }
 
 // openAndVerify opens blob with the decompressor fitting kind and verifies it against tocDigest.
-func openAndVerify(kind string, blob []byte, tocBlob []byte, tocDigest string) (actualTOC string, err error) {
+func openAndVerify(kind string, blob []byte, pay []byte, tocBlob []byte, tocDigest string) (actualTOC string, err error) {
 	sr := io.NewSectionReader(bytes.NewReader(blob), 0, int64(len(blob)))
 	var opts []estargz.OpenOption
 	switch kind {
@@ -403,29 +407,52 @@ func openAndVerify(kind string, blob []byte, tocBlob []byte, tocDigest string) (
 		return actualTOC, fmt.Errorf("annotation is not a digest: %v", err)
 	}
 	ev, err := r.VerifyTOC(d)
-	if err != nil {
+	if err != nil && strings.Contains(err.Error(), "found twice") && actualTOC == tocDigest {
+		// estargz.Reader.Verifiers keys chunks by Offset only and therefore rejects every blob built with
+		// MinChunkSize (several files share one compressed stream and differ in InnerOffset).  The snapshotter
+		// does not use it (fs/layer verifies through metadata.Reader); fall back to what that path checks:
+		// digest of the TOC really carried = annotation, and every file against its TOC-pinned digest.
+		ev = nil
+	} else if err != nil {
 		return actualTOC, fmt.Errorf("VerifyTOC: %v", err)
 	}
-	// verify every chunk of every regular file against the TOC-pinned digests
+	// Contents: the decompressed blob is a tar stream; every regular file in it must match the TOC-pinned file digest
+	// and every chunk the TOC-pinned chunk digest (one decoder for the whole blob: cheap).
+	files := map[string][]byte{}
+	tr := tar.NewReader(bytes.NewReader(pay))
+	for {
+		h, err := tr.Next()
+		if err != nil {
+			break
+		}
+		if h.Typeflag == tar.TypeReg {
+			b, _ := io.ReadAll(tr)
+			files[strings.TrimPrefix(strings.TrimPrefix(h.Name, "./"), "/")] = b
+		}
+	}
 	root, ok := r.Lookup("")
 	if !ok {
 		return actualTOC, fmt.Errorf("no root")
 	}
-	var walk func(e *estargz.TOCEntry, p string) error
-	walk = func(e *estargz.TOCEntry, p string) error {
+	directReads := 0
+	var walk func(e *estargz.TOCEntry) error
+	walk = func(e *estargz.TOCEntry) error {
 		var ferr error
 		e.ForeachChild(func(name string, c *estargz.TOCEntry) bool {
-			cp := p + "/" + name
 			if c.Type == "dir" {
-				ferr = walk(c, cp)
+				ferr = walk(c)
 				return ferr == nil
 			}
 			if c.Type != "reg" || c.Size == 0 {
 				return true
 			}
-			fr, err := r.OpenFile(c.Name)
-			if err != nil {
-				ferr = fmt.Errorf("open file %s: %v", c.Name, err)
+			whole, ok := files[c.Name]
+			if !ok || int64(len(whole)) != c.Size {
+				ferr = fmt.Errorf("file %s of the TOC is not in the decompressed blob with %d bytes", c.Name, c.Size)
+				return false
+			}
+			if c.Digest != "" && sha(whole) != c.Digest {
+				ferr = fmt.Errorf("file %s does not match its TOC digest", c.Name)
 				return false
 			}
 			var off int64
@@ -435,31 +462,55 @@ func openAndVerify(kind string, blob []byte, tocBlob []byte, tocDigest string) (
 					ferr = fmt.Errorf("no chunk at %s:%d", c.Name, off)
 					return false
 				}
-				v, err := ev.Verifier(ce)
-				if err != nil {
-					ferr = fmt.Errorf("verifier %s:%d: %v", c.Name, off, err)
+				n := ce.ChunkSize
+				if n == 0 {
+					n = c.Size - off
+				}
+				if off+n > c.Size {
+					ferr = fmt.Errorf("chunk %s:%d+%d beyond the file", c.Name, off, n)
 					return false
 				}
-				buf := make([]byte, ce.ChunkSize)
-				if ce.ChunkSize == 0 {
-					buf = make([]byte, c.Size-off)
-				}
-				if _, err := fr.ReadAt(buf, off); err != nil && err != io.EOF {
-					ferr = fmt.Errorf("read %s:%d: %v", c.Name, off, err)
+				if ce.ChunkDigest != "" && sha(whole[off:off+n]) != ce.ChunkDigest {
+					ferr = fmt.Errorf("chunk %s:%d does not match its TOC chunk digest", c.Name, off)
 					return false
 				}
-				_, _ = v.Write(buf)
-				if !v.Verified() {
-					ferr = fmt.Errorf("chunk %s:%d does not verify", c.Name, off)
-					return false
+				if ev != nil {
+					v, err := ev.Verifier(ce)
+					if err != nil {
+						ferr = fmt.Errorf("verifier %s:%d: %v", c.Name, off, err)
+						return false
+					}
+					_, _ = v.Write(whole[off : off+n])
+					if !v.Verified() {
+						ferr = fmt.Errorf("chunk %s:%d does not verify", c.Name, off)
+						return false
+					}
 				}
-				off += int64(len(buf))
+				// a few reads through the blob offsets of the TOC (each one costs a fresh decoder)
+				if directReads < 4 {
+					directReads++
+					fr, err := r.OpenFile(c.Name)
+					if err != nil {
+						ferr = fmt.Errorf("open file %s: %v", c.Name, err)
+						return false
+					}
+					buf := make([]byte, n)
+					if _, err := fr.ReadAt(buf, off); err != nil && err != io.EOF {
+						ferr = fmt.Errorf("read %s:%d: %v", c.Name, off, err)
+						return false
+					}
+					if !bytes.Equal(buf, whole[off:off+n]) {
+						ferr = fmt.Errorf("read of %s:%d through the TOC offsets returns other bytes", c.Name, off)
+						return false
+					}
+				}
+				off += n
 			}
 			return true
 		})
 		return ferr
 	}
-	if err := walk(root, ""); err != nil {
+	if err := walk(root); err != nil {
 		return actualTOC, err
 	}
 	return actualTOC, nil
@@ -539,8 +590,10 @@ func exec(c Case) Result {
 		if info, err := cs.Info(ctx, d.Digest); err == nil {
 			o.SrcLabel = info.Labels[labels.LabelUncompressed]
 		}
+		o.SrcLen = int64(len(b))
 		if dec, err := decompressAll(b); err == nil {
 			o.SrcDiffID = sha(dec)
+			o.SrcPayLen = int64(len(dec))
 		}
 	}
 
@@ -818,7 +871,7 @@ func exec(c Case) Result {
 				}
 			}
 		}
-		actual, err := openAndVerify(c.Kind, blob, tocBlob, o.AnnTOC)
+		actual, err := openAndVerify(c.Kind, blob, pay, tocBlob, o.AnnTOC)
 		o.TOCDg = actual
 		if err != nil {
 			if finalize != nil {
@@ -913,7 +966,7 @@ func coqCase(c Case, r Result) string {
 	}
 	in := newInterner(all)
 	var ls []string
-	for _, o := range r.Layers {
+	for i, o := range r.Layers {
 		usz := "None"
 		if v, err := strconv.ParseInt(o.AnnUSize, 10, 64); err == nil && v >= 0 {
 			usz = fmt.Sprintf("(Some %d%%N)", v)
@@ -922,23 +975,20 @@ func coqCase(c Case, r Result) string {
 		if comp == "" {
 			comp = "None"
 		}
-		var obs string
-		switch o.Res {
-		case "ok":
+		obs := "OErr"
+		ok := o.Res == "ok"
+		if ok {
 			mt := mtCoq[o.MT]
 			if mt == "" {
-				mt = "OciTar"
+				mt = "OciTar" // unknown media type: reported by the oracle; any wrong value makes the case mismatch
 			}
 			obs = fmt.Sprintf("(OOk %s %s %d%%N %s %s %s)", mt, in.id(o.Digest), o.Size, in.id(o.AnnTOC), usz, in.id(o.Label))
-		case "nil":
-			obs = "ONil"
-		default:
-			obs = "OErr"
 		}
-		// the blob as the tuple of its observable function values
+		// blobs as the tuples of their observable function values (H, len, H.payload, len.payload, compression, TOC digest, external TOC blob)
+		src := fmt.Sprintf("(mkBlob %s %d%%N %s %d%%N None 0%%N 0%%N 0%%N)", in.id(o.SrcDigest), o.SrcLen, in.id(o.SrcDiffID), o.SrcPayLen)
 		blob := fmt.Sprintf("(mkBlob %s %d%%N %s %d%%N %s %s %s %d%%N)", in.id(o.HBlob), o.Len, in.id(o.HPay), o.PayLen, comp, in.id(o.TOCDg), in.id(o.TOCBlob), o.TOCLen)
-		ls = append(ls, fmt.Sprintf("(mkLayer %s %s %s %s %s %s %s)", mtCoq[o.SrcMT], in.id(o.SrcDigest), in.id(o.SrcLabel), in.id(o.SrcDiffID),
-			hx.CoqBool(o.Existed), blob, obs))
+		ls = append(ls, fmt.Sprintf("(mkLayer %s %s %s %s %s %s %s %s)", mtCoq[o.SrcMT], in.id(o.SrcDigest), in.id(o.SrcLabel), src,
+			hx.CoqBool(c.Ops[i].Pre == "retry"), hx.CoqBool(ok), blob, obs))
 	}
 	var ms []string
 	for _, m := range r.Manifest {
@@ -955,7 +1005,7 @@ func coqCase(c Case, r Result) string {
 // generator
 
 func genLayer(r *hx.Rng, kind string) Layer {
-	l := Layer{Seed: r.U64() % 1000000, NFiles: r.Range(0, 6), MaxSz: []int{0, 10, 900, 5000, 20000}[r.Pick(1, 2, 4, 4, 2)]}
+	l := Layer{Seed: r.U64() % 1000000, NFiles: r.Range(0, 6), MaxSz: []int{0, 10, 900, 5000, 12000}[r.Pick(1, 2, 4, 4, 1)]}
 	l.Comp = []string{"none", "gzip", "zstd", "esgz", "zstdchunked"}[r.Pick(4, 6, 3, 3, 1)]
 	l.Fam = []string{"oci", "ocind", "docker", "dockerforeign"}[r.Pick(6, 2, 4, 1)]
 	l.Lab = r.Pick(3, 3, 2)
@@ -963,7 +1013,7 @@ func genLayer(r *hx.Rng, kind string) Layer {
 		l.Prio = r.Range(1, 3)
 	}
 	if r.Chance(1, 4) {
-		l.LChunk = []int{100, 512, 4096}[r.Intn(3)]
+		l.LChunk = []int{600, 2048, 4096}[r.Intn(3)]
 	}
 	switch r.Pick(8, 2, 2) {
 	case 1:
@@ -979,15 +1029,15 @@ func gen(r *hx.Rng) Case {
 	c := Case{}
 	c.Kind = []string{"esgz", "zstd", "ext", "extll"}[r.Pick(3, 3, 4, 3)]
 	c.API = []string{"common", "perlayer"}[r.Pick(3, 2)]
-	c.Chunk = []int{0, 64, 700, 4096, 100000}[r.Pick(3, 1, 3, 3, 1)]
+	c.Chunk = []int{0, 300, 1000, 4096, 100000}[r.Pick(3, 1, 3, 3, 1)]
 	if r.Chance(1, 5) {
-		c.MinChunk = []int{100, 3000, 50000}[r.Intn(3)]
+		c.MinChunk = []int{500, 3000, 50000}[r.Intn(3)]
 	}
 	c.Level = []int{0, 1, 6, 9}[r.Pick(3, 3, 2, 1)]
 	c.Spare = r.Pick(2, 1, 1, 2) // 0..3 spare slots
 	c.CPrio = r.Chance(1, 5)
 	c.Parallel = r.Chance(2, 3)
-	n := r.Pick(0, 2, 3, 3, 2, 1, 1) // 1..6
+	n := r.Pick(0, 2, 4, 3, 2, 1, 1) // 1..6
 	for i := 0; i < n; i++ {
 		l := genLayer(r, c.Kind)
 		if i > 0 && r.Chance(1, 6) {
@@ -1000,6 +1050,12 @@ func gen(r *hx.Rng) Case {
 		}
 		c.Ops = append(c.Ops, l)
 	}
+	// every chunk costs a fresh gzip/zstd encoder (~1 MB of state): keep tiny chunk sizes for small files
+	for i := range c.Ops {
+		if c.Chunk > 0 && c.Chunk < 1000 && c.Ops[i].MaxSz > 900 {
+			c.Ops[i].MaxSz = 900
+		}
+	}
 	return c
 }
 
@@ -1009,8 +1065,17 @@ func main() {
 	os.Setenv("CONTAINERD_DISABLE_PIGZ", "1")
 	os.Setenv("CONTAINERD_DISABLE_IGZIP", "1")
 	ctx := hx.Start()
+	if pf := os.Getenv("C19_PROF"); pf != "" {
+		f, _ := os.Create(pf)
+		_ = pprof.StartCPUProfile(f)
+		defer pprof.StopCPUProfile()
+	}
 	emit := func(c Case) {
+		t0 := time.Now()
 		r := exec(c)
+		if os.Getenv("C19_TIMING") != "" {
+			fmt.Fprintf(os.Stderr, "%s %s layers=%d chunk=%d minchunk=%d par=%v  %v\n", c.Kind, c.API, len(c.Ops), c.Chunk, c.MinChunk, c.Parallel, time.Since(t0))
+		}
 		term := coqCase(c, r)
 		ctx.Count("kind." + c.Kind)
 		ctx.Count("api." + c.API)
